@@ -1,4 +1,246 @@
-import ApiFu.C06.Model
-import ApiFu.C06.Spec
+/-
+  C06 — property theorems over the parser model (Model.lean), against the grammar specification
+  (Spec.lean). All statements are for the fixed code (`leak = false`), every `maxRecursion`, every
+  token list, every amount of fuel; scanner behaviour is a parameter (property C07).
+-/
+import ApiFu.C06.Lemmas
+
 namespace ApiFu.C06
+
+/-- A production is balanced: on every normal return the recursion counter is back at its entry value. -/
+def Balanced {α : Type} (x : P α) : Prop :=
+  ∀ (env : Env) (st st' : St) (a : α), env.leak = false → x env st = .ok a st' → st'.recursion = st.recursion
+
+theorem Sound.balanced {α : Type} {x : P α} {stk : α → List STok} {wf : α → Bool} (h : Sound x stk wf) :
+    Balanced x := fun _ _ _ _ hl hx => (h.ok hl hx).1
+
+/-- **rec_balanced** — every production of the parser returns with `p.recursion` at its entry value, on
+    every return path (this is what makes "maximum recursion depth exceeded" a statement about the
+    depth of the production call stack). It holds for the code after the F-12a fix; `rec_leaks_before_fix`
+    below is the machine-checked witness that it failed before. -/
+theorem rec_balanced (f : Nat) :
+    Balanced parseName ∧ Balanced parseVariable ∧ Balanced parseNamedType ∧ Balanced parseTypeCondition ∧
+    Balanced parseOperationType ∧ Balanced (parseType f) ∧ (∀ c, Balanced (parseValue f c)) ∧
+    Balanced (parseArgument f) ∧ Balanced (parseOptionalArguments f) ∧ Balanced (parseOptionalDirectives f) ∧
+    Balanced (parseVariableDefinition f) ∧ Balanced (parseOptionalVariableDefinitions f) ∧
+    Balanced (parseSelectionSet f) ∧ Balanced (parseSelection f) ∧ Balanced (parseField f) ∧
+    Balanced (parseOptionalSelectionSet f) ∧ Balanced (parseOptionalFragmentDefinition f) ∧
+    Balanced (parseOperationDefinition f) ∧ Balanced (parseDefinition f) ∧ Balanced (parseDocument f) :=
+  ⟨parseName_sound.balanced, parseVariable_sound.balanced, parseNamedType_sound.balanced,
+   parseTypeCondition_sound.balanced, parseOperationType_sound.balanced, (parseType_sound f).balanced,
+   fun c => (parseValue_sound f c).balanced, (parseArgument_sound f).balanced,
+   (parseOptionalArguments_sound f).balanced, (parseOptionalDirectives_sound f).balanced,
+   (parseVariableDefinition_sound f).balanced, (parseOptionalVariableDefinitions_sound f).balanced,
+   (parseSelectionSet_sound f).balanced, (sel_sound f).2.2.1.balanced, (sel_sound f).2.2.2.1.balanced,
+   (parseOptionalSelectionSet_sound f).balanced, (parseOptionalFragmentDefinition_sound f).balanced,
+   (parseOperationDefinition_sound f).balanced, (parseDefinition_sound f).balanced,
+   fun env st _ _ hl hx => (wp_ok (parseDocument_sound f env st hl) hx).1.1⟩
+
+/-- Non-vacuity of `rec_balanced`, and the F-12a witness: on the one-token input `a` the fixed
+    parseSelection returns with the counter where it was; the code before the fix (`leak = true`)
+    returns one level higher — one leaked level per sibling field. -/
+def witnessEnv (leak : Bool) : Env := { maxRec := 1000, eofPos := ⟨1, 2⟩, leak := leak }
+def witnessSt : St := { toks := [{ kind := .name, value := "a", pos := ⟨1, 1⟩ }], recursion := 5, errors := [] }
+
+example : ∃ a st', parseSelection 5 (witnessEnv false) witnessSt = .ok a st' ∧ st'.recursion = 5 :=
+  ⟨_, _, rfl, rfl⟩
+
+theorem rec_leaks_before_fix :
+    ∃ a st', parseSelection 5 (witnessEnv true) witnessSt = .ok a st' ∧ st'.recursion = witnessSt.recursion + 1 :=
+  ⟨_, _, rfl, rfl⟩
+
+/-- **parse_sound** — whatever `ParseDocument` returns as a document is in the grammar and is the
+    *whole* input: the returned tree is well-formed (`wfDocument`: every side condition of the
+    executable-document grammar), the complete token list is a rendering of the tree's own token
+    sequence (same kinds and values, every position the tree records is the position of that token) —
+    so nothing outside the grammar is accepted and no truncated or partial document is ever returned —
+    and the error list returned with it is exactly the scanner's error list (empty iff the scanner
+    reported nothing). -/
+theorem parse_sound (maxRec : Nat) (inp : Input) (d : Document) (errs : List Err)
+    (h : ParseDocument maxRec inp = .returned d errs) :
+    wfDocument d = true ∧ Renders inp.toks d.stoks = true ∧ errs = scannerErrs inp := by
+  unfold ParseDocument at h
+  cases hr : parseDocument (defaultFuel inp) (inp.env maxRec false) inp.init with
+  | ok a st' =>
+    rw [hr] at h
+    simp only [Res.outcome, Outcome.returned.injEq] at h
+    obtain ⟨rfl, rfl⟩ := h
+    obtain ⟨⟨_, ⟨htot, ts, hts, hren⟩, hwf⟩, hnil⟩ := wp_ok (parseDocument_sound _ _ _ rfl) hr
+    refine ⟨hwf, ?_, ?_⟩
+    · have : inp.toks = ts := by
+        have := hts; simp only [Input.init, hnil, List.append_nil] at this; exact this
+      rw [this]; exact hren
+    · rw [← total_init inp maxRec false, ← htot]
+      simp [total, hnil, pendingErrs]
+  | fail es => rw [hr] at h; simp [Res.outcome] at h
+  | oof => rw [hr] at h; simp [Res.outcome] at h
+
+/-- `ParseDocument` returned a document and no error. -/
+def Outcome.accepted {α : Type} : Outcome α → Bool
+  | .returned _ [] => true
+  | _ => false
+
+/-- The error list of a recovered panic. -/
+def Outcome.recoveredErrs {α : Type} : Outcome α → Option (List Err)
+  | .recovered es => some es
+  | _ => none
+
+/-- Non-vacuity of `parse_sound`: `{ a }` is returned without error (kernel evaluation of the model). -/
+example : (ParseDocument 1000
+    { toks := [{ kind := .punct, value := "{", pos := ⟨1, 1⟩ }, { kind := .name, value := "a", pos := ⟨1, 3⟩ },
+               { kind := .punct, value := "}", pos := ⟨1, 5⟩ }], eofPos := ⟨1, 6⟩ }).accepted = true := by
+  decide +kernel
+
+/-- What `Renders` means pointwise: the i-th concrete token has the kind and value of the i-th token of
+    the tree, and stands where the tree says whenever the tree records a position for it. -/
+theorem renders_pointwise {ts : List Tok} {ss : List STok} (h : Renders ts ss = true) :
+    ts.length = ss.length ∧ ∀ (i : Nat) (t : Tok) (s : STok), ts[i]? = some t → ss[i]? = some s →
+      t.kind = s.kind ∧ t.value = s.value ∧ ∀ p, s.pos = some p → t.pos = p := by
+  induction ts generalizing ss with
+  | nil => cases ss <;> simp_all [Renders]
+  | cons t ts ih =>
+    cases ss with
+    | nil => simp [Renders] at h
+    | cons s ss =>
+      simp only [Renders, Bool.and_eq_true] at h
+      obtain ⟨hl, hp⟩ := ih h.2
+      refine ⟨by simp [hl], ?_⟩
+      intro i t' s' ht hs
+      cases i with
+      | zero =>
+        simp only [List.getElem?_cons_zero, Option.some.injEq] at ht hs
+        subst ht hs
+        have := h.1
+        simp only [Tok.renders, Bool.and_eq_true, beq_iff_eq] at this
+        refine ⟨this.1.1, this.1.2, ?_⟩
+        intro p hp'
+        rw [hp'] at this
+        simpa using this.2
+      | succ i =>
+        simp only [List.getElem?_cons_succ] at ht hs
+        exact hp i t' s' ht hs
+
+/-- **error_located** — when `ParseDocument` recovers from a panic it returns no document and an error
+    list that is non-empty: the scanner errors reported up to that point (a prefix of the scanner's
+    list) followed by exactly one parser error, located at the position of a token of the input or at
+    the position the scanner reports for the end of the input. (The harness checks on the real scanner
+    that all these positions satisfy 1 ≤ line ≤ lines+1; that part is the scanner's, property C07.) -/
+theorem error_located (maxRec : Nat) (inp : Input) (es : List Err)
+    (h : ParseDocument maxRec inp = .recovered es) :
+    ∃ pre e, es = pre ++ [e] ∧ pre <+: scannerErrs inp ∧ e.pos ∈ inp.toks.map (·.pos) ++ [inp.eofPos] := by
+  unfold ParseDocument at h
+  cases hr : parseDocument (defaultFuel inp) (inp.env maxRec false) inp.init with
+  | ok a st' => rw [hr] at h; simp [Res.outcome] at h
+  | fail es' =>
+    rw [hr] at h
+    simp only [Res.outcome, Outcome.recovered.injEq] at h
+    subst h
+    obtain ⟨pre, e, he, hp, hpos⟩ := wp_fail (parseDocument_sound _ _ _ rfl) hr
+    exact ⟨pre, e, he, total_init inp maxRec false ▸ hp, hpos⟩
+  | oof => rw [hr] at h; simp [Res.outcome] at h
+
+/-- Corollary in the shape of the property statement: if every position the scanner produced lies on
+    lines 1 … L+1 (tokens, EOF, its own errors), so does every error `ParseDocument` reports, and there
+    is at least one. -/
+theorem error_located_lines (maxRec : Nat) (inp : Input) (es : List Err) (L : Nat)
+    (h : ParseDocument maxRec inp = .recovered es)
+    (htok : ∀ t ∈ inp.toks, 1 ≤ t.pos.line ∧ t.pos.line ≤ L + 1)
+    (heof : 1 ≤ inp.eofPos.line ∧ inp.eofPos.line ≤ L + 1)
+    (hscan : ∀ e ∈ scannerErrs inp, 1 ≤ e.pos.line ∧ e.pos.line ≤ L + 1) :
+    es ≠ [] ∧ ∀ e ∈ es, 1 ≤ e.pos.line ∧ e.pos.line ≤ L + 1 := by
+  obtain ⟨pre, e, rfl, hp, hpos⟩ := error_located maxRec inp es h
+  refine ⟨by simp, ?_⟩
+  intro e' he'
+  rcases List.mem_append.mp he' with h1 | h1
+  · exact hscan e' (hp.subset h1)
+  · simp only [List.mem_singleton] at h1
+    subst h1
+    rcases List.mem_append.mp hpos with h2 | h2
+    · obtain ⟨t, ht, hte⟩ := List.mem_map.mp h2
+      rw [← hte]; exact htok t ht
+    · simp only [List.mem_singleton] at h2
+      rw [h2]; exact heof
+
+/-- Non-vacuity of `error_located`: `{ a` fails at the EOF position. -/
+example : (ParseDocument 1000
+    { toks := [{ kind := .punct, value := "{", pos := ⟨1, 1⟩ }, { kind := .name, value := "a", pos := ⟨1, 3⟩ }],
+      eofPos := ⟨1, 4⟩ }).recoveredErrs = some [{ msg := "expected name", pos := ⟨1, 4⟩ }] := by
+  decide +kernel
+
+/-- The recorded position of the first token of a spec token list. -/
+def firstPos (ss : List STok) : Option Pos := ss.head?.bind (·.pos)
+
+theorem firstPos_append_of_some {a b : List STok} {p : Pos} (h : firstPos a = some p) : firstPos (a ++ b) = some p := by
+  cases a with
+  | nil => simp [firstPos] at h
+  | cons x a => simpa [firstPos] using h
+
+theorem Name.firstPos (n : Name) : firstPos n.stoks = some n.position := rfl
+theorem Variable.firstPos (v : Variable) : firstPos v.stoks = some v.position := rfl
+
+theorem Value.firstPos (v : Value) : firstPos v.stoks = some v.position := by
+  cases v <;> rfl
+
+theorem TypeExpr.firstPos (t : TypeExpr) : firstPos t.stoks = some t.position := by
+  induction t with
+  | named n => rfl
+  | list t o c _ => rfl
+  | nonNull t ih => exact firstPos_append_of_some ih
+
+theorem Selection.firstPos (s : Selection) : firstPos s.stoks = some s.position := by
+  cases s with
+  | field al n args dirs sel => cases al <;> rfl
+  | spread e n dirs => rfl
+  | inline e tc dirs sel => rfl
+
+theorem SelSet.firstPos (s : SelSet) : firstPos s.stoks = some s.position := by
+  cases s; rfl
+
+theorem Definition.firstPos (d : Definition) : firstPos d.stoks = some d.position := by
+  cases d with
+  | op t name vars dirs sel =>
+    cases t with
+    | none => exact SelSet.firstPos sel
+    | some t => rfl
+  | frag p n tc dirs sel => rfl
+
+/-- **position_first_token** — for every node type of ast.go, `Position()` is the recorded position of
+    the first token of the node's own token sequence (`stoks` is compositional: a sub-node's tokens are a
+    contiguous segment of its parent's). Together with `parse_sound` (`Renders inp.toks d.stoks`,
+    see `renders_pointwise`) this says: in every document `ParseDocument` returns, every node's
+    `Position()` is the line and column at which the scanner found the node's first token.
+    `*ast.Document` is the one exception by definition: its `Position()` is the constant 1:1. -/
+theorem position_first_token :
+    (∀ n : Name, firstPos n.stoks = some n.position) ∧
+    (∀ v : Variable, firstPos v.stoks = some v.position) ∧
+    (∀ v : Value, firstPos v.stoks = some v.position) ∧
+    (∀ f : Name × Value, firstPos (f.1.stoks ++ free .punct ":" :: f.2.stoks) = some (objectFieldPosition f)) ∧
+    (∀ t : TypeExpr, firstPos t.stoks = some t.position) ∧
+    (∀ n : Name, firstPos n.stoks = some (namedTypePosition n)) ∧
+    (∀ a : Argument, firstPos a.stoks = some a.position) ∧
+    (∀ d : Directive, firstPos d.stoks = some d.position) ∧
+    (∀ v : VarDef, firstPos v.stoks = some v.position) ∧
+    (∀ s : Selection, firstPos s.stoks = some s.position) ∧
+    (∀ s : SelSet, firstPos s.stoks = some s.position) ∧
+    (∀ t : OpType, firstPos [anch .name t.value t.pos] = some t.position) ∧
+    (∀ d : Definition, firstPos d.stoks = some d.position) :=
+  ⟨Name.firstPos, Variable.firstPos, Value.firstPos, fun _ => rfl, TypeExpr.firstPos, Name.firstPos,
+   fun _ => rfl, fun _ => rfl, fun _ => rfl, Selection.firstPos, SelSet.firstPos, fun _ => rfl, Definition.firstPos⟩
+
+/-- **parse_value_sound** — `ParseValue` (which, as documented, does not look beyond the value) returns
+    a well-formed value whose token sequence renders a *prefix* of the input. -/
+theorem parse_value_sound (maxRec : Nat) (inp : Input) (v : Value) (errs : List Err)
+    (h : ParseValue maxRec inp = .returned v errs) :
+    wfValue false v = true ∧ ∃ ts rest, inp.toks = ts ++ rest ∧ Renders ts v.stoks = true := by
+  unfold ParseValue at h
+  cases hr : parseValue (defaultFuel inp) false (inp.env maxRec) inp.init with
+  | ok a st' =>
+    rw [hr] at h
+    simp only [Res.outcome, Outcome.returned.injEq] at h
+    obtain ⟨rfl, rfl⟩ := h
+    obtain ⟨_, ⟨_, ts, hts, hren⟩, hwf⟩ := (parseValue_sound _ false).ok rfl hr
+    exact ⟨hwf, ts, st'.toks, hts, hren⟩
+  | fail es => rw [hr] at h; simp [Res.outcome] at h
+  | oof => rw [hr] at h; simp [Res.outcome] at h
+
 end ApiFu.C06
